@@ -66,6 +66,13 @@ impl SO2StateSpace {
 
         // TODO: Do we want to enforce a boundary here if it is above or below +/- PI?
         let clamped_bounds = (bounds.0.max(-PI), bounds.1.min(PI));
+        // The interval must still be non-empty after clamping to [-PI, PI], and NaN-free.
+        if bounds.0.is_nan() || bounds.1.is_nan() || clamped_bounds.0 >= clamped_bounds.1 {
+            return Err(StateSpaceError::InvalidBound {
+                lower: bounds.0,
+                upper: bounds.1,
+            });
+        }
 
         Ok(Self {
             bounds: clamped_bounds,
